@@ -152,4 +152,26 @@ theorem final_family_refutes (J : Interp) (ρ : Asg) (name : String) (parts : Li
   · exact C19.independent_refutes J ρ _
   · exact C19.sequential_refutes J ρ _
 
+/-- Non-vacuity of the hypotheses of `external_refutes_programs`: a concrete task (input `q/1`,
+    output `p/1`, `p(X) :- q(X).` against `p(X) :- q(X), not not q(X).`) is accepted, yields two
+    problems, and `rename_conflicting_symbols` leaves its assembled problems unchanged
+    (kernel-evaluated). -/
+def exampleTask : ExternalTask :=
+  { specification := .inl [⟨.basic ⟨"p", [.var "X"]⟩, [.lit ⟨.pos, ⟨"q", [.var "X"]⟩⟩]⟩]
+    program := [⟨.basic ⟨"p", [.var "X"]⟩, [.lit ⟨.pos, ⟨"q", [.var "X"]⟩⟩, .lit ⟨.negneg, ⟨"q", [.var "X"]⟩⟩]⟩]
+    userGuide := [.input ⟨"q", 1⟩, .output ⟨"p", 1⟩]
+    proofOutline := []
+    decomposition := .sequential, direction := .universal, rep := .tauStar
+    bypassTightness := false, simplify := false, breakEq := false }
+
+example : (match externalProblems exampleTask 8 with | .ok ps => ps.length | _ => 0) = 2 := by decide
+
+example : ∀ ΓL ΓR, theoryTranslate exampleTask [] 8 [⟨.basic ⟨"p", [.var "X"]⟩, [.lit ⟨.pos, ⟨"q", [.var "X"]⟩⟩]⟩] = .ok ΓL →
+    theoryTranslate exampleTask [] 8 exampleTask.program = .ok ΓR → NoSymbolConflictExt exampleTask ΓL ΓR := by
+  intro ΓL ΓR hL hR
+  injection hL with hL; injection hR with hR
+  subst hL; subst hR
+  unfold NoSymbolConflictExt
+  decide
+
 end Anthem.C02
